@@ -69,6 +69,9 @@ def mkcell(h, t, name, finite=True):
         c.value = h.float(name, finite=finite)
     elif t == CT.STRING:
         c.value = h.str(name)
+        # QBASIC strings hold at most 32767 characters
+        if h.symbolic:
+            h.assume(c.value.length() <= 32767)
     else:
         raise ValueError(t)
     return c
